@@ -683,8 +683,9 @@ HasMethod(c, v, m) ==
       [] OTHER -> TRUE          \* strings, numbers, ranges ...: not tabulated here
 KnownNoMethod(c, v, m) ==       \* kinds whose modules are tabulated here or that have no such methods at all
     \/ (v.t \in {"ref", "tup", "itr"} /\ ~HasMethod(c, v, m))
-    \/ (v.t \in {"int", "flt", "null", "bool"} /\ m \in ListModule \cup MapModule \cup TupleModule \cup IterModule
-         /\ m \notin {"contains", "min", "max", "sum"})
+    \/ v.t \in {"null", "bool"}            \* no `.` access at all on Null and Bool
+    \/ (v.t \in {"int", "flt"} /\ m \in ListModule \cup MapModule \cup TupleModule \cup IterModule
+         /\ m \notin {"min", "max"})          \* the number module has its own min and max
 
 MethodCall(c, node, vs) ==
     LET m == node.m
